@@ -117,6 +117,23 @@ Theorem c25_prefix_free : forall (v1 v2 : value) (e1 e2 p1 p2 : bytes),
 Proof. exact encode_prefix_free. Qed.
 Print Assumptions c25_prefix_free.
 
+(** ** List lengths
+    The element loop of DecodeValue's ListType case runs up to the count read from the wire
+    (checked on the source on every run), and lists longer than MAX_PARAM_LENGTH (or any other
+    length below 2^32) round-trip element for element: the decoder has no cap. *)
+Theorem c25_list_loop_uses_wire_count : LIST_LOOP_USES_WIRE_COUNT = true.
+Proof. exact list_loop_uses_wire_count. Qed.
+Print Assumptions c25_list_loop_uses_wire_count.
+
+Theorem c25_no_cap_at_max_param_length : forall l : list gvalue,
+  wf_g (GList l) = true -> MAX_PARAM_LENGTH < N.of_nat (length l) ->
+  exists b, g_encode_value (GList l) = EOk b /\
+    (N.of_nat (length b) < two64 ->
+     decode_value (src_new b) = DOk (XList (map norm l)) (mkSrc b (length b)) /\
+     length (map norm l) = length l).
+Proof. exact no_cap_at_max_param_length. Qed.
+Print Assumptions c25_no_cap_at_max_param_length.
+
 (** ** vmcall_codec.go and notify_codec.go *)
 
 (** The slice taken after each prefix test starts where the prefix ends (so it cannot panic), and
